@@ -58,7 +58,8 @@ def source_strategy(tier, doc_kw=None, weights=(14, 3, 3), gen_max_hosts=None):
     mh = gen_max_hosts or (40 if tier == "thorough" else 20)
     g = st.builds(lambda p: {"kind": "gen", "params": p},
                   sources.gen_params(max_hosts=mh, max_services=5))
-    return weighted([(weights[0], d), (weights[1], s), (weights[2], g)])
+    big = st.builds(lambda p: {"kind": "gen", "params": p}, sources.gen_params_large())
+    return weighted([(weights[0] * 4, d), (weights[1] * 4, s), (weights[2] * 4, g), (max(1, sum(weights) // 5), big)])
 
 
 MODES = st.fixed_dictionaries({
